@@ -14,7 +14,7 @@ for id in C03 C04 C05 C06 C08 C09 C10 C11 C12 C18 C19; do
   s=1
   while [ "$s" -le "$nseeds" ]; do
     ref=""
-    for w in 16 1 5 16; do
+    for w in 16 3 7 16; do
       out=$(VERIF_SEED=$((s * 7919)) "$bin" fingerprints "$id" "$tier" --workers "$w" | grep '^fingerprint')
       total=$((total + 1))
       if [ -z "$ref" ]; then ref="$out"; elif [ "$out" != "$ref" ]; then
